@@ -145,7 +145,8 @@ pub fn c07_objects(ctx: &Ctx) {
         for n in &sizes {
             jobs.push((k, *n));
         }
-        for n in [65_530u32, 65_534, 65_536, 65_540] {
+        // every size around 64 KiB, where the size integers embedded in some objects widen
+        for n in 65_520u32..=65_545 {
             jobs.push((k, n));
         }
     }
